@@ -322,6 +322,19 @@ def make_run(world, c, combo, use_contracts, spec_builtins):
             st.assume(t)
         if st.check() == z3.unsat:
             raise Infeasible()
+        for lname, binding in c.lemmas:
+            lc = world.lemma_contracts.get(lname) if hasattr(world, 'lemma_contracts') else None
+            if lc is None:
+                raise Unsupported(f"lemma {lname} is not among the loaded contracts")
+            lenv = Env({k: I.eval(parse_expr(v), env) for k, v in binding.items()}, pyglobals=dict(lc.spec_globals))
+            pre = zand(*[eval_clause(I, r, lenv, assumed=True) for r in lc.requires])
+            lenv.vars['result'] = True
+            post = zand(*[eval_clause(I, cl.expr, lenv, assumed=True) for cl in lc.ensures])
+            fact = zor(znot(pre), post) if not isinstance(pre, bool) else (post if pre else True)
+            st.assume(fact, lazy=True)
+            note = f"lemma {lname} (a contract of kind 'lemma', proved by its own obligations in the same run) is used as a fact"
+            if note not in st.assumed:
+                st.assumed.append(note)
         st.notes['pre_ok'] = True
         n_pre_vcs = len(st.vcs)
         try:
@@ -442,6 +455,13 @@ def verify_combo(world, c, combo, use_contracts, spec_builtins):
     return out
 
 
+def _poison(v, why):
+    """a location is havocked by giving it a NEW list value; the old list OBJECT may have been changed in place by the
+    code that was abstracted, so whoever still holds it (an alias, a loop iterating it) must not look at it any more"""
+    if isinstance(v, SymList):
+        v.poisoned = why
+
+
 def apply_contract_at_call(I, c, f, args, kwargs, node, also=()):
     """modular call: the callee is represented by its contract, not its body"""
     st = I.st
@@ -477,6 +497,7 @@ def apply_contract_at_call(I, c, f, args, kwargs, node, also=()):
             obj = bound.get(pname)
             if not isinstance(obj, SObj):
                 raise Unsupported(f"call-site use of contract {c.name}: {pname} is not an object")
+            _poison(obj.fields.get(field), f"the call of {c.qualname} may have changed it in place")
             obj.fields[field] = spec.make(I, st.fresh_name('havoc_' + field))
         for exc, when in (c.call_raises or []):
             if when == 'MAY':
@@ -596,6 +617,7 @@ def _loop_havoc(I, body, env, inv, skip=()):
         ok, obj = env.lookup(oname)
         if not ok or not isinstance(obj, SObj):
             raise Unsupported(f"loop invariant: modified location {path} is not a field of a local object")
+        _poison(obj.fields.get(field), "the loop body may change it in place")
         obj.fields[field] = spec.make(I, st.fresh_name('hv_' + field))
     return modified, heap_mod
 
